@@ -35,6 +35,14 @@ impl<W> DistanceMatrix<W> {
         r@ == old(self).dist@,
         final(self).dist@ == final(r)@,
     @*/
-    // IndexMut<Range<usize>> is NOT under contract: vstd gives `&mut v[a..b]` no postcondition (every clause about the
-    // returned slice fails), so nothing can be stated about it without a new assumption
+    // IndexMut<Range<usize>>: vstd gives `&mut v[a..b]` a precondition (the range is in bounds: the std panic condition) but NO
+    // postcondition, so only the safety obligation and the frame of the other fields are under contract here; the data clauses
+    // (returned slice == the addressed cells, cells outside the range unchanged) cannot be stated without a new assumption
+    /*@fn impl=DistanceMatrix trait=IndexMut implhas='IndexMut<Range<usize>>' name=index_mut rename=index_range_mut subst=Self::Output=>[W]
+    requires
+        index.start <= index.end <= old(self).dist@.len(),
+    ensures
+        final(self).order == old(self).order,
+        final(self).infinity == old(self).infinity,
+    @*/
 }
